@@ -23,7 +23,11 @@ func findCommitsToRemove(db objects.Store, rs ref.Store, pbarAdd func()) (commit
 		return
 	}
 	for _, sum := range refMap {
-		q.Insert(sum)
+		// a ref whose commit cannot be read must stop the prune: carrying on would
+		// treat its whole history as unreachable (a dangling ref keeps nothing alive)
+		if err := q.Insert(sum); err != nil && !errors.Is(err, objects.ErrKeyNotFound) {
+			return nil, nil, err
+		}
 	}
 	commitKeys, err := objects.GetAllCommitKeys(db)
 	if err != nil {
